@@ -274,7 +274,11 @@ def run(chk: Check, eng: Engine) -> None:
     chk.rule("R15-b", "no format_as_spec of a grammar node reads re-bindable module-level state", floor=8)
     chk.rule("R15-c", "non-regex literals are printed with repr() and read with eval()", floor=2)
     chk.rule("R15-d", "the reader's grammar has the precedence shape the argument relies on", floor=4)
-    chk.not_decided += ["regex quoting branches of Terminal.format_as_spec", "party annotations, generators and constraint text"]
+    chk.not_decided += ["regex quoting branches of Terminal.format_as_spec", "party annotations", "that a derivable constraint text is read back with the same grouping (R15-f decides derivability only)"]
+    chk.rule("R15-f", "what the printers of searches and constraints emit - for every class the reader can put into each field - is derivable from the rule the reader "
+             "uses for that construct (`selector_length` for a search, `constraint` for each line FandangoSpec.__repr__ writes)", floor=40)
+    from .c15_syntax import printer_reader_rule
+    printer_reader_rule(chk, eng, "R15-f")
     chk.rule("R15-e", "no printer (format_as_spec and what it calls) is memoised by a decorator whose key - self by __eq__/__hash__, the arguments - "
              "leaves out something the printer reads", floor=1)
     from .common_memo import decorated_memo_rule
@@ -488,6 +492,12 @@ _R = "src/fandango/language/grammar/nodes/repetition.py"
 _A = "src/fandango/language/grammar/nodes/alternative.py"
 _TS = "src/fandango/language/symbols/terminal.py"
 MUTANTS = [
+    M("quantifier-prints-plain-selection", "src/fandango/constraints/forall.py", "            if not search.startswith(\"*\"):\n                search = \"*\" + search\n", "", "R15-f"),
+    M("length-of-star-in-bars", "src/fandango/language/search.py", "        if value.startswith(\"*\"):\n            return f\"len({value})\"\n", "", "R15-f"),
+    M("soft-value-under-where", "src/fandango/language/parse/spec.py", "            (\"\" if isinstance(constraint, SoftValue) else \"where \")\n            + constraint.format_as_spec()\n", "            \"where \" + constraint.format_as_spec()\n", "R15-f"),
+    M("item-base-unparenthesised", "src/fandango/language/search.py", "        return f\"{_base_as_spec(self.base)}[{', '.join(slice_reprs)}]\"\n", "        return f\"{self.base.format_as_spec()}[{', '.join(slice_reprs)}]\"\n", "R15-f"),
+    M("pair-slice-appended-to-the-list", "src/fandango/language/search.py", "                else:\n                    slice_repr += repr(items)\n", "                else:\n                    slice_reprs += repr(items)\n", "R15-f"),
+    M("exists-prints-keyword-form-in-brackets", "src/fandango/constraints/exists.py", "            return f\"any({self.statement.format_as_spec()} for {bound} in {search})\"\n", "            return f\"any[{self.statement.format_as_spec()} for {bound} in {search}]\"\n", "R15-f"),
     M("terminal-printer-memoised-by-value", "src/fandango/language/symbols/terminal.py", "    def format_as_spec(self) -> str:\n        if self.is_regex:\n", "    @lru_cache(maxsize=4096)\n    def format_as_spec(self) -> str:\n        if self.is_regex:\n", "R15-e",
       more=(("from io import UnsupportedOperation\n", "from functools import lru_cache\nfrom io import UnsupportedOperation\n"),)),
     M("quote-escape-context-free", _TS, "            symbol = re.sub(\n                r\"(\\\\*)'\",\n                lambda m: m.group(1)[: len(m.group(1)) // 2 * 2] + r\"\\x27\",\n                str(self._value),\n            )\n",
@@ -503,6 +513,9 @@ MUTANTS = [
     M("literal-str-instead-of-repr", _TS, "        # Not a regex\n        return repr(self._value)", "        # Not a regex\n        return \"'\" + str(self._value) + \"'\"", "R15-c"),
 ]
 TWINS = [
+    M("twin-length-printer-conditional-expression", "src/fandango/language/search.py", "        value = self.value.format_as_spec()\n        if value.startswith(\"*\"):\n            return f\"len({value})\"\n        return f\"|{value}|\"\n",
+      "        value = self.value.format_as_spec()\n        return f\"len({value})\" if value.startswith(\"*\") else \"|\" + value + \"|\"\n", None),
+    M("twin-quantifier-list-comprehension-form", "src/fandango/constraints/forall.py", "            return f\"all({self.statement.format_as_spec()} for {bound} in {search})\"\n", "            return f\"all([{self.statement.format_as_spec()} for {bound} in {search}])\"\n", None),
     M("twin-memoised-type-test", "src/fandango/language/symbols/symbol.py", "    def is_type(self, type_: TreeValueType) -> bool:\n", "    @functools.lru_cache(maxsize=None)\n    def is_type(self, type_: TreeValueType) -> bool:\n", None,
       more=(("import abc\nimport enum\n", "import abc\nimport enum\nimport functools\n"),)),
     M("twin-quote-pattern-not-raw", _TS, "                r\"(\\\\*)'\",\n", "                \"(\\\\\\\\*)'\",\n", None),
